@@ -50,4 +50,14 @@ META["C02"] = dict(
         "for every arrival order at small scale; the deviation StrayRoutedToLast must be caught.",
    technique="TLA+ spec (Mux.tla incarnations) + TLC MC + scripted-peer replay of TLC behaviours + TLC trace validation",
    design_ref="DESIGN.md 3/C02")
+META["C11"] = dict(
+   text="WritePath.tla models write_frame / write_with_padding at the granularity of the code's critical sections (flag test, buffer "
+        "taken and released, packet index, FIFO writer mutex, flush) for the creator of a fresh session, a second opener sharing it "
+        "and a third writer. TLC checks SettingsFirst, SynBeforeData, PerTaskOrder, NothingDropped, PktOrder and deadlock freedom "
+        "exhaustively for the repaired design (2 and 3 tasks) and must find the Settings-overtaken schedule in the model of the "
+        "pinned code. Every complete 2-task schedule (23k, sampled in quick) and simulated 3-task schedules are replayed on a real "
+        "client Session by parking tasks at cfg-guarded scheduling points; the bytes that reach the transport are parsed "
+        "independently and Trace_WireOrder.tla decides at the wire only.",
+   technique="TLA+ spec (WritePath.tla) + TLC exhaustive MC + every TLC schedule replayed via scheduling hooks + TLC trace validation",
+   design_ref="DESIGN.md 3/C11")
 NOT_YET = "check not built yet in this round (planned: DESIGN.md section 3); not claimed"
